@@ -33,6 +33,8 @@ type Engine struct {
 	validationRuns int
 	fnNames  sync.Map
 	BufSize  int
+	lastPaths, lastQueries int
+	lastHarnesses []string
 	reachMu  sync.Mutex
 	reachSet map[string]bool
 }
@@ -189,6 +191,7 @@ type Harness struct {
 	Expect    string // "" | "violation" (self-test harnesses)
 	Doc       string
 	ReplayIters int
+	BufSensitive bool
 }
 
 func parseRange(s string) []int64 {
@@ -279,6 +282,8 @@ func (g *Engine) Harnesses(tier string) []*Harness {
 						h.Tiers = fields[1]
 					case "expect":
 						h.Expect = fields[1]
+					case "bufsensitive":
+						h.BufSensitive = true
 					case "replay-iters":
 						h.ReplayIters, _ = strconv.Atoi(fields[1])
 					}
